@@ -7,6 +7,7 @@ HARNESS = "rx_driver"
 LEAN_MODULES = ["ViaProofs.C17"]
 REQUIRED_THEOREMS = ["Via.C17_guard", "Via.C17_challenge", "Via.C17_accepts", "Via.b64_roundtrip"]
 LEVEL = "proof"
+LEVEL_TEXT = ('PROOF that a request is accepted only with the base64 of a registered user:password, every other value gets the challenge, registered credentials encoded by the library are accepted, and decode(encode(x)) = x for all byte strings; correspondence exhaustive over short values, empty users/passwords, protected routes in the router; ASan for memory safety of the C++.')
 RULE = ("Authorization values: every string of length <= N over {'Q','=',' ','d',':'} after 'Basic ', scheme-only and "
         "truncated values, valid and invalid credentials for tables incl. empty password and ':' in password, random "
         "octets; base64 round trip for every length 0..400 (random content) and all 1- and 2-byte strings; the expected "
